@@ -2,21 +2,22 @@
 
 // Driver for property C07 (area Union): random programs of set/delete/get/batch-get/iter/iter-reverse/
 // staging/release/cleanup/checkpoint/revert on
-//   art, rbt : unionstore.KVUnionStore over a scripted in-memory snapshot (+ transaction.BufferBatchGetter)
-//   txn      : a real KVTxn over the mock store with committed base data
+//
+//	art, rbt : unionstore.KVUnionStore over a scripted in-memory snapshot (+ transaction.BufferBatchGetter)
+//	txn      : a real KVTxn over the mock store with committed base data
+//
 // Output (tab separated), consumed by ocaml/union/driver.ml and checks/C07.py:
-//   PROG <id> <target> <snapshot k:v,...>
-//   O <id> <idx> <kind> <args...> => <result>
-//   FAIL <oracle> <idx> <program json> <minimised json> <minimised transcript> <f03fired> <detail> <id>
-//   PSTAT <oracle> <evaluations> <fails>
-//   GSTAT <name> <count>
+//
+//	PROG <id> <target> <snapshot k:v,...>
+//	O <id> <idx> <kind> <args...> => <result>
+//	FAIL <oracle> <idx> <program json> <minimised json> <minimised transcript> <f03fired> <detail> <id>
+//	PSTAT <oracle> <evaluations> <fails>
+//	GSTAT <name> <count>
 package main
 
 import (
 	"bufio"
 	"bytes"
-	"context"
-	"encoding/hex"
 	"encoding/json"
 	"fmt"
 	"math/rand"
@@ -24,2109 +25,10 @@ import (
 	"sort"
 	"strconv"
 	"strings"
-	"sync"
 
 	"github.com/pingcap/log"
-	tikverr "github.com/tikv/client-go/v2/error"
-	"github.com/tikv/client-go/v2/internal/mockstore/mocktikv"
-	"github.com/tikv/client-go/v2/internal/unionstore"
-	"github.com/tikv/client-go/v2/kv"
-	"github.com/tikv/client-go/v2/testutils"
-	"github.com/tikv/client-go/v2/tikv"
-	"github.com/tikv/client-go/v2/txnkv/transaction"
 	"go.uber.org/zap/zapcore"
 )
-
-// ---------------------------------------------------------------- programs
-type Op struct {
-	Op   string   `json:"op"`
-	K    string   `json:"k,omitempty"`
-	V    string   `json:"v,omitempty"`
-	Keys []string `json:"keys,omitempty"`
-	Lo   string   `json:"lo,omitempty"`
-	Hi   string   `json:"hi,omitempty"`
-	F    []int    `json:"f,omitempty"`  // flag ops (index of the FlagsOp constant) of set/del/uflags
-	E    uint64   `json:"e,omitempty"`  // limits: entry size limit (0 = unlimited)
-	B    uint64   `json:"b,omitempty"`  // limits: buffer size limit (0 = unlimited)
-	Unmark bool   `json:"unmark,omitempty"` // uflags: through KVUnionStore.UnmarkPresumeKeyNotExists
-	Stale bool    `json:"stale,omitempty"` // set/del: open a buffer iterator before the write and probe it afterwards
-	H    int      `json:"h,omitempty"`  // release/cleanup/inspect: -1 = the live top handle, else literal handle
-	ID   int      `json:"id,omitempty"` // cp / revert: checkpoint label
-}
-type Program struct {
-	Target string      `json:"target"`
-	NoF03  bool        `json:"nof03,omitempty"`
-	Snap   [][2]string `json:"snap"`
-	Ops    []Op        `json:"ops"`
-}
-
-func hx(b []byte) string { return hex.EncodeToString(b) }
-func unhx(s string) []byte {
-	b, err := hex.DecodeString(s)
-	if err != nil {
-		panic(err)
-	}
-	if len(b) == 0 {
-		return nil
-	}
-	return b
-}
-func hd(s string) string { // display form: "-" for empty
-	if s == "" {
-		return "-"
-	}
-	return s
-}
-
-type KV struct{ K, V []byte }
-
-func kvsString(l []KV) string {
-	if len(l) == 0 {
-		return "-"
-	}
-	var sb strings.Builder
-	for i, e := range l {
-		if i > 0 {
-			sb.WriteByte(',')
-		}
-		sb.WriteString(hd(hx(e.K)))
-		sb.WriteByte(':')
-		sb.WriteString(hd(hx(e.V)))
-	}
-	return sb.String()
-}
-
-// ---------------------------------------------------------------- scripted snapshot
-type memSnap struct {
-	data   []KV // ascending
-	handed [][]byte
-	gets   [][]byte
-}
-type sliceIter struct {
-	l []KV
-	i int
-}
-
-func (it *sliceIter) Valid() bool   { return it.i < len(it.l) }
-func (it *sliceIter) Key() []byte   { return it.l[it.i].K }
-func (it *sliceIter) Value() []byte { return it.l[it.i].V }
-func (it *sliceIter) Next() error   { it.i++; return nil }
-func (it *sliceIter) Close()        {}
-
-func (s *memSnap) Get(_ context.Context, k []byte, _ ...kv.GetOption) (kv.ValueEntry, error) {
-	s.gets = append(s.gets, k)
-	for _, e := range s.data {
-		if bytes.Equal(e.K, k) {
-			return kv.NewValueEntry(e.V, 0), nil
-		}
-	}
-	return kv.ValueEntry{}, tikverr.ErrNotExist
-}
-func (s *memSnap) Iter(k, upper []byte) (unionstore.Iterator, error) {
-	var l []KV
-	for _, e := range s.data {
-		if bytes.Compare(e.K, k) >= 0 && (len(upper) == 0 || bytes.Compare(e.K, upper) < 0) {
-			l = append(l, e)
-		}
-	}
-	return &sliceIter{l: l}, nil
-}
-func (s *memSnap) IterReverse(k, lower []byte) (unionstore.Iterator, error) {
-	var l []KV
-	for i := len(s.data) - 1; i >= 0; i-- {
-		e := s.data[i]
-		if (len(k) == 0 || bytes.Compare(e.K, k) < 0) && bytes.Compare(e.K, lower) >= 0 {
-			l = append(l, e)
-		}
-	}
-	return &sliceIter{l: l}, nil
-}
-func (s *memSnap) BatchGet(_ context.Context, keys [][]byte, _ ...kv.BatchGetOption) (map[string]kv.ValueEntry, error) {
-	s.handed = append([][]byte{}, keys...)
-	m := map[string]kv.ValueEntry{}
-	for _, k := range keys {
-		for _, e := range s.data {
-			if bytes.Equal(e.K, k) {
-				m[string(k)] = kv.NewValueEntry(e.V, 0)
-			}
-		}
-	}
-	return m, nil
-}
-
-// ---------------------------------------------------------------- targets
-type target interface {
-	Buf() unionstore.MemBuffer
-	Get(k []byte) ([]byte, bool, error)
-	BatchGet(keys [][]byte) (handed [][]byte, haveHanded bool, res map[string][]byte, err error)
-	Iter(lo, hi []byte) (unionstore.Iterator, error)
-	IterReverse(hi, lo []byte) (unionstore.Iterator, error)
-	Close()
-}
-
-type usTarget struct {
-	buf  unionstore.MemBuffer
-	snap *memSnap
-	us   *unionstore.KVUnionStore
-}
-
-func newUS(kind string, snap []KV) *usTarget {
-	var b unionstore.MemBuffer
-	if kind == "rbt" {
-		b = unionstore.VerifUnionNewRBT()
-	} else {
-		b = unionstore.VerifUnionNewART()
-	}
-	s := &memSnap{data: snap}
-	return &usTarget{buf: b, snap: s, us: unionstore.NewUnionStore(b, s)}
-}
-func (t *usTarget) Buf() unionstore.MemBuffer { return t.buf }
-func (t *usTarget) Get(k []byte) ([]byte, bool, error) {
-	v, err := t.us.Get(context.Background(), k)
-	if tikverr.IsErrNotFound(err) {
-		return nil, false, nil
-	}
-	if err != nil {
-		return nil, false, err
-	}
-	return v.Value, true, nil
-}
-func (t *usTarget) BatchGet(keys [][]byte) ([][]byte, bool, map[string][]byte, error) {
-	t.snap.handed = nil
-	m, err := transaction.NewBufferBatchGetter(t.buf, t.snap).BatchGet(context.Background(), keys)
-	if err != nil {
-		return nil, true, nil, err
-	}
-	r := map[string][]byte{}
-	for k, v := range m {
-		r[k] = v.Value
-	}
-	return t.snap.handed, true, r, nil
-}
-func (t *usTarget) Iter(lo, hi []byte) (unionstore.Iterator, error)        { return t.us.Iter(lo, hi) }
-func (t *usTarget) IterReverse(hi, lo []byte) (unionstore.Iterator, error) { return t.us.IterReverse(hi, lo) }
-func (t *usTarget) Close()                                                 {}
-
-// snapBuf adapts the staging-blind view of a MemBuffer (SnapshotGetter) to transaction.BatchSnapshotBufferGetter
-type snapBuf struct{ g kv.Getter }
-
-func (b snapBuf) Get(ctx context.Context, k []byte, o ...kv.GetOption) (kv.ValueEntry, error) {
-	return b.g.Get(ctx, k, o...)
-}
-func (b snapBuf) BatchGet(ctx context.Context, keys [][]byte, _ ...kv.BatchGetOption) (map[string]kv.ValueEntry, error) {
-	m := map[string]kv.ValueEntry{}
-	for _, k := range keys {
-		v, err := b.g.Get(ctx, k)
-		if err == nil {
-			m[string(k)] = v
-		} else if !tikverr.IsErrNotFound(err) {
-			return nil, err
-		}
-	}
-	return m, nil
-}
-
-// ---------------------------------------------------------------- pipelined buffer over a scripted flush function
-// The flush function of PipelinedMemDB is scripted: it waits until the program lets it complete, then copies the
-// flushed buffer (tombstones included) into `remote`, which is also what the buffer's batch getter answers from.
-type pipeTarget struct {
-	buf     *unionstore.PipelinedMemDB
-	snap    *memSnap
-	us      *unionstore.KVUnionStore
-	mu      sync.Mutex
-	remote  map[string][]byte
-	release chan struct{}
-	done    chan struct{}
-	pending bool
-	keys    [][]byte // every key the program mentions: the observation set
-}
-
-func newPipe(snap []KV, keys [][]byte) *pipeTarget {
-	t := &pipeTarget{snap: &memSnap{data: snap}, remote: map[string][]byte{}, release: make(chan struct{}, 4), done: make(chan struct{}, 4), keys: keys}
-	t.buf = unionstore.NewPipelinedMemDB(func(_ context.Context, ks [][]byte) (map[string]kv.ValueEntry, error) {
-		t.mu.Lock()
-		defer t.mu.Unlock()
-		m := make(map[string]kv.ValueEntry, len(ks))
-		for _, k := range ks {
-			if v, ok := t.remote[string(k)]; ok {
-				m[string(k)] = kv.NewValueEntry(v, 0)
-			}
-		}
-		return m, nil
-	}, func(_ uint64, db *unionstore.MemDB) error {
-		<-t.release
-		t.mu.Lock()
-		it, err := db.Iter(nil, nil)
-		if err == nil {
-			for ; it.Valid(); _ = it.Next() {
-				t.remote[string(it.Key())] = append([]byte{}, it.Value()...)
-			}
-		}
-		t.mu.Unlock()
-		t.done <- struct{}{}
-		return err
-	})
-	t.us = unionstore.NewUnionStore(t.buf, t.snap)
-	return t
-}
-func (t *pipeTarget) complete() {
-	if t.pending {
-		t.release <- struct{}{}
-		<-t.done
-		t.pending = false
-	}
-}
-func (t *pipeTarget) Buf() unionstore.MemBuffer { return t.buf }
-func (t *pipeTarget) Get(k []byte) ([]byte, bool, error) {
-	v, err := t.us.Get(context.Background(), k)
-	if tikverr.IsErrNotFound(err) {
-		return nil, false, nil
-	}
-	if err != nil {
-		return nil, false, err
-	}
-	return v.Value, true, nil
-}
-func (t *pipeTarget) BatchGet(keys [][]byte) ([][]byte, bool, map[string][]byte, error) {
-	t.snap.handed = nil
-	m, err := transaction.NewBufferBatchGetter(t.buf, t.snap).BatchGet(context.Background(), keys)
-	if err != nil {
-		return nil, true, nil, err
-	}
-	r := map[string][]byte{}
-	for k, v := range m {
-		r[k] = v.Value
-	}
-	return t.snap.handed, true, r, nil
-}
-func (t *pipeTarget) Iter(lo, hi []byte) (unionstore.Iterator, error)        { return t.us.Iter(lo, hi) }
-func (t *pipeTarget) IterReverse(hi, lo []byte) (unionstore.Iterator, error) { return t.us.IterReverse(hi, lo) }
-func (t *pipeTarget) Close() {
-	t.complete()
-	_ = t.buf.FlushWait()
-}
-
-// real transaction over the mock store
-var theStore *tikv.KVStore
-var prevBase [][]byte
-
-var storeUses int
-var theCluster *testutils.MockCluster
-var storeMultiRegion, storeSingle bool
-var storeRand = rand.New(rand.NewSource(4242))
-
-func getStore() *tikv.KVStore {
-	// a fresh mock store every 60 transactions: the MVCC history of one store makes later scans slower
-	storeUses++
-	if theStore != nil && storeUses%60 != 0 {
-		return theStore
-	}
-	if theStore != nil {
-		_ = theStore.Close()
-		prevBase = nil
-	}
-	client, cluster, pdClient, err := testutils.NewMockTiKV("", nil)
-	must(err)
-	// several regions; split points are themselves adversarial keys (prefixes of pool keys, 00/ff runs)
-	cands := [][]byte{{0, 0}, {1}, {'a'}, {'a', 0}, {'a', 0, 0}, {'a', 'a', 'a', 'a', 'a', 'a', 'a', 'a', 'a', 'a', 'a', 'a', 'a', 'a', 'a', 'a', 'a', 'a', 'a', 'a', 'a', 'a', 'b'},
-		{'a', 'b'}, {'a', 0xff}, {'b'}, {0xfe}, {0xff}, {0xff, 0}, {0xff, 0xff}}
-	var splits [][]byte
-	storeSingle = gstats["txn-stores"]%4 == 3 // every 4th store keeps one region: open-ended reverse scans run as they are
-	for _, c := range cands {
-		if !storeSingle && storeRand.Intn(3) == 0 {
-			splits = append(splits, c)
-		}
-	}
-	if v := os.Getenv("VERIF_C07_SPLITS"); v != "" { // debugging aid: fixed split keys (comma separated hex)
-		splits = nil
-		for _, h := range strings.Split(v, ",") {
-			splits = append(splits, unhx(h))
-		}
-	}
-	testutils.BootstrapWithMultiRegions(cluster, splits...)
-	gstats["txn-stores"]++
-	gstats["txn-store-regions"] += len(splits) + 1
-	theCluster = cluster
-	storeMultiRegion = len(splits) > 0
-	st, err := tikv.NewTestTiKVStore(client, pdClient, nil, nil, 0)
-	must(err)
-	theStore = st
-	return st
-}
-func must(err error) {
-	if err != nil {
-		panic(err)
-	}
-}
-
-type txnTarget struct{ txn *transaction.KVTxn }
-
-func newTxn(snap []KV) *txnTarget {
-	st := getStore()
-	ctx := context.Background()
-	t0, err := st.Begin()
-	must(err)
-	for _, k := range prevBase {
-		must(t0.Delete(k))
-	}
-	prevBase = nil
-	for _, e := range snap {
-		must(t0.Set(e.K, e.V))
-		prevBase = append(prevBase, e.K)
-	}
-	if t0.Len() > 0 {
-		must(t0.Commit(ctx))
-	} else {
-		_ = t0.Rollback()
-	}
-	t1, err := st.Begin()
-	must(err)
-	return &txnTarget{txn: t1}
-}
-func (t *txnTarget) Buf() unionstore.MemBuffer { return t.txn.GetMemBuffer() }
-func (t *txnTarget) Get(k []byte) ([]byte, bool, error) {
-	v, err := t.txn.Get(context.Background(), k)
-	if tikverr.IsErrNotFound(err) {
-		return nil, false, nil
-	}
-	if err != nil {
-		return nil, false, err
-	}
-	return v.Value, true, nil
-}
-func (t *txnTarget) BatchGet(keys [][]byte) ([][]byte, bool, map[string][]byte, error) {
-	m, err := t.txn.BatchGet(context.Background(), keys)
-	if err != nil {
-		return nil, false, nil, err
-	}
-	r := map[string][]byte{}
-	for k, v := range m {
-		r[k] = v.Value
-	}
-	return nil, false, r, nil
-}
-func (t *txnTarget) Iter(lo, hi []byte) (unionstore.Iterator, error)        { return t.txn.Iter(lo, hi) }
-func (t *txnTarget) IterReverse(hi, lo []byte) (unionstore.Iterator, error) {
-	// Reverse scans whose upper end is the end of the key space run as they are, also over several regions
-	// (F08b does not reproduce through KVTxn on the current tree). VERIF_C07_CLOSED_END=1 replaces the open end
-	// by an explicit bound above every generated key (debugging aid).
-	if len(hi) == 0 && storeMultiRegion && os.Getenv("VERIF_C07_CLOSED_END") != "" {
-		hi = bytes.Repeat([]byte{0xff}, 40)
-	} else if len(hi) == 0 && storeMultiRegion && countStats {
-		gstats["txn-riter-open-end-over-several-regions"]++
-	}
-	return t.txn.IterReverse(hi, lo)
-}
-func (t *txnTarget) Close()                                                 { _ = t.txn.Rollback() }
-
-// ---------------------------------------------------------------- discipline tracker (value-log positions)
-// Decides which checkpoints may still be reverted to (a checkpoint is a position of the value log and
-// dies when the log is truncated below it; reverting below the top staging position is API misuse) and
-// predicts which writes overwrite in place (entry above the top staging position and above lastCheckpoint).
-type shEntry struct {
-	k string
-	v []byte
-}
-type cpInfo struct {
-	pos int
-}
-type tracker struct {
-	log      []shEntry
-	stagePos []int
-	cps      map[int]*cpInfo
-	lastCp   int // latest position handed out by Checkpoint / reverted to (lowered by a cleanup below it)
-}
-
-func newTracker() *tracker { return &tracker{cps: map[int]*cpInfo{}} }
-func (t *tracker) head(k string) int {
-	for i := len(t.log) - 1; i >= 0; i-- {
-		if t.log[i].k == k {
-			return i
-		}
-	}
-	return -1
-}
-func (t *tracker) inplaceIdx(k string, v []byte) int {
-	i := t.head(k)
-	if i < 0 || len(v) == 0 || len(t.log[i].v) != len(v) {
-		return -1
-	}
-	if len(t.stagePos) > 0 && i < t.stagePos[len(t.stagePos)-1] {
-		return -1
-	}
-	if i < t.lastCp {
-		return -1
-	}
-	return i
-}
-func (t *tracker) write(k string, v []byte) {
-	if i := t.inplaceIdx(k, v); i >= 0 {
-		t.log[i].v = append([]byte{}, v...)
-		return
-	}
-	t.log = append(t.log, shEntry{k, append([]byte{}, v...)})
-}
-func (t *tracker) truncate(p int) {
-	if p < len(t.log) {
-		t.log = t.log[:p]
-	}
-	for id, c := range t.cps {
-		if c.pos > p {
-			delete(t.cps, id)
-		}
-	}
-}
-func (t *tracker) staging()   { t.stagePos = append(t.stagePos, len(t.log)) }
-func (t *tracker) depth() int { return len(t.stagePos) }
-func (t *tracker) release()   { t.stagePos = t.stagePos[:len(t.stagePos)-1] }
-func (t *tracker) cleanup() {
-	p := t.stagePos[len(t.stagePos)-1]
-	t.truncate(p)
-	if p < t.lastCp {
-		t.lastCp = p
-	}
-	t.release()
-}
-func (t *tracker) checkpoint(id int) { t.cps[id] = &cpInfo{pos: len(t.log)}; t.lastCp = len(t.log) }
-func (t *tracker) canRevert(id int) bool {
-	c, ok := t.cps[id]
-	if !ok || c.pos > len(t.log) {
-		return false
-	}
-	if len(t.stagePos) > 0 && c.pos < t.stagePos[len(t.stagePos)-1] {
-		return false
-	}
-	return true
-}
-func (t *tracker) revert(id int) {
-	c := t.cps[id]
-	t.truncate(c.pos)
-	t.lastCp = c.pos
-}
-
-// ---------------------------------------------------------------- reference (specification) view
-// snapshot map overlaid with the buffered writes in program order; savepoints keep previous versions
-type refState struct {
-	flags  map[string]kv.KeyFlags // every existing key (has a value or has flags), program order fold of the flag ops
-	elim   uint64
-	blim   uint64
-	snap   map[string][]byte
-	buf    map[string][]byte // present key -> value; empty value = tombstone
-	stack  []map[string][]byte
-	cps    map[int]map[string][]byte
-}
-
-func copyMap(m map[string][]byte) map[string][]byte {
-	r := make(map[string][]byte, len(m))
-	for k, v := range m {
-		r[k] = v
-	}
-	return r
-}
-func fopsOf(f []int) []kv.FlagsOp {
-	var l []kv.FlagsOp
-	for _, i := range f {
-		l = append(l, kv.FlagsOp(1)<<uint(i))
-	}
-	return l
-}
-func fopsString(f []int) string {
-	if len(f) == 0 {
-		return "-"
-	}
-	var l []string
-	for _, i := range f {
-		l = append(l, strconv.Itoa(i))
-	}
-	return strings.Join(l, ",")
-}
-
-const persistentFlags = kv.KeyFlags(2 | 8 | 2048 | 8192)
-
-// refApply: the specification of the flag operations (by index of the FlagsOp constant), written out
-// independently of kv.ApplyFlagsOps
-func refApply(f kv.KeyFlags, ops []int) kv.KeyFlags {
-	const (
-		presumeKNE = 1 << iota
-		keyLocked
-		needLocked
-		keyLockedValExist
-		needCheckExists
-		prewriteOnly
-		ignoredIn2PC
-		readable
-		newlyInserted
-		assertExist
-		assertNotExist
-		needConstraintCheck
-		previousPresumeKNE
-		keyLockedInShareMode
-	)
-	for _, op := range ops {
-		switch op {
-		case 0:
-			f |= presumeKNE | needCheckExists
-		case 1:
-			f &^= presumeKNE | needCheckExists
-		case 2:
-			f |= keyLocked
-		case 3:
-			f &^= keyLocked
-		case 4:
-			f |= needLocked
-		case 5:
-			f &^= needLocked
-		case 6:
-			f = (f | keyLockedValExist) &^ needConstraintCheck
-		case 7:
-			f &^= keyLockedValExist | needConstraintCheck
-		case 8:
-			f &^= needCheckExists
-		case 9:
-			f |= prewriteOnly
-		case 10:
-			f |= ignoredIn2PC
-		case 11:
-			f |= readable
-		case 12:
-			f |= newlyInserted
-		case 13:
-			f = (f &^ assertNotExist) | assertExist
-		case 14:
-			f = (f &^ assertExist) | assertNotExist
-		case 15:
-			f |= assertExist | assertNotExist
-		case 16:
-			f &^= assertExist | assertNotExist
-		case 17:
-			f |= needConstraintCheck
-		case 18:
-			f &^= needConstraintCheck
-		case 19:
-			f |= previousPresumeKNE
-		case 20:
-			f |= keyLockedInShareMode
-		case 21:
-			f &^= keyLockedInShareMode
-		}
-	}
-	return f
-}
-
-// undo: keys that lose their first value keep only the persistent flags (and vanish without any)
-func (r *refState) undoTo(restored map[string][]byte) {
-	for k := range r.buf {
-		if _, ok := restored[k]; !ok {
-			if f := r.flags[k] & persistentFlags; f != 0 {
-				r.flags[k] = f
-			} else {
-				delete(r.flags, k)
-			}
-		}
-	}
-	r.buf = restored
-}
-func (r *refState) size() int {
-	n := 0
-	for k := range r.flags {
-		n += len(k) + len(r.buf[k])
-	}
-	return n
-}
-func (r *refState) get(k string) ([]byte, bool) {
-	if v, ok := r.buf[k]; ok {
-		if len(v) == 0 {
-			return nil, false
-		}
-		return v, true
-	}
-	v, ok := r.snap[k]
-	return v, ok
-}
-func inBounds(k, lo, hi []byte) bool {
-	return bytes.Compare(k, lo) >= 0 && (len(hi) == 0 || bytes.Compare(k, hi) < 0)
-}
-func (r *refState) list(lo, hi []byte, rev bool) []KV {
-	keys := map[string]bool{}
-	for k := range r.snap {
-		keys[k] = true
-	}
-	for k := range r.buf {
-		keys[k] = true
-	}
-	var l []KV
-	for k := range keys {
-		if v, ok := r.get(k); ok && inBounds([]byte(k), lo, hi) {
-			l = append(l, KV{[]byte(k), v})
-		}
-	}
-	sort.Slice(l, func(i, j int) bool {
-		c := bytes.Compare(l[i].K, l[j].K)
-		if rev {
-			return c > 0
-		}
-		return c < 0
-	})
-	return l
-}
-
-// ---------------------------------------------------------------- executor
-type oracleStat struct{ n, fails int }
-
-var ostats = map[string]*oracleStat{}
-var countStats = true
-
-func oracle(name string, ok bool) bool {
-	if countStats {
-		s := ostats[name]
-		if s == nil {
-			s = &oracleStat{}
-			ostats[name] = s
-		}
-		s.n++
-		if !ok {
-			s.fails++
-		}
-	}
-	return ok
-}
-
-type failure struct {
-	oracle string
-	idx    int
-	detail string
-}
-
-const maxIter = 100000
-
-func drain(it unionstore.Iterator, err error) ([]KV, string) {
-	if err != nil {
-		return nil, "err:" + errClass(err)
-	}
-	defer it.Close()
-	var l []KV
-	for n := 0; it.Valid(); n++ {
-		if n > maxIter {
-			return l, "overrun"
-		}
-		l = append(l, KV{append([]byte{}, it.Key()...), append([]byte{}, it.Value()...)})
-		if e := it.Next(); e != nil {
-			return l, "err:" + errClass(e)
-		}
-	}
-	return l, ""
-}
-func errClass(err error) string {
-	m := err.Error()
-	if len(m) > 40 {
-		m = m[:40]
-	}
-	return strings.ReplaceAll(strings.ReplaceAll(m, "\t", " "), "\n", " ")
-}
-
-func protect(f func()) (pan string) {
-	defer func() {
-		if r := recover(); r != nil {
-			pan = fmt.Sprint(r)
-			if len(pan) > 60 {
-				pan = pan[:60]
-			}
-		}
-	}()
-	f()
-	return ""
-}
-
-func fullObs(t target) string {
-	if pt, ok := t.(*pipeTarget); ok {
-		var sb strings.Builder
-		for _, k := range pt.keys {
-			var v []byte
-			var found bool
-			var err error
-			if p := protect(func() { v, found, err = pt.Get(k) }); p != "" || err != nil {
-				sb.WriteString("!")
-			}
-			fmt.Fprintf(&sb, "%x=%v:%x,", k, found, v)
-		}
-		return sb.String()
-	}
-	var a, b []KV
-	var ea, eb string
-	if p := protect(func() { a, ea = drain(t.Iter(nil, nil)) }); p != "" {
-		ea = "panic"
-	}
-	if p := protect(func() { b, eb = drain(t.IterReverse(nil, nil)) }); p != "" {
-		eb = "panic"
-	}
-	return kvsString(a) + ea + "|" + kvsString(b) + eb
-}
-
-// execProgram runs p on a fresh target. emit (may be nil) receives the transcript lines.
-// Returns the first oracle failure (nil if none); the second result is unused (kept for the FAIL line format).
-func execProgram(id int, p *Program, emit func(string)) (*failure, bool) {
-	var snap []KV
-	for _, e := range p.Snap {
-		snap = append(snap, KV{unhx(e[0]), unhx(e[1])})
-	}
-	sort.Slice(snap, func(i, j int) bool { return bytes.Compare(snap[i].K, snap[j].K) < 0 })
-	var t target
-	switch p.Target {
-	case "txn":
-		t = newTxn(snap)
-	case "pipe":
-		seen := map[string]bool{}
-		var keys [][]byte
-		add := func(h string) {
-			if !seen[h] {
-				seen[h] = true
-				keys = append(keys, unhx(h))
-			}
-		}
-		for _, e := range p.Snap {
-			add(e[0])
-		}
-		for _, o := range p.Ops {
-			if o.Op == "set" || o.Op == "del" || o.Op == "get" {
-				add(o.K)
-			}
-			for _, k := range o.Keys {
-				add(k)
-			}
-		}
-		t = newPipe(snap, keys)
-	default:
-		t = newUS(p.Target, snap)
-	}
-	defer t.Close()
-	if emit != nil {
-		emit(fmt.Sprintf("PROG\t%d\t%s\t%s", id, p.Target, kvsString(snap)))
-	}
-	ref := &refState{snap: map[string][]byte{}, buf: map[string][]byte{}, cps: map[int]map[string][]byte{}, flags: map[string]kv.KeyFlags{},
-		elim: ^uint64(0), blim: ^uint64(0)}
-	for _, e := range snap {
-		ref.snap[string(e.K)] = e.V
-	}
-	tr := newTracker()
-	realCps := map[int]*unionstore.MemDBCheckpoint{}
-	var stageObs []string
-	wasDirty := false
-	var snapObj unionstore.MemBufferSnapshot
-	var snapBase map[string][]byte
-	cpObs := map[int]string{}
-	var fail *failure
-	setFail := func(name string, idx int, detail string) {
-		if fail == nil {
-			fail = &failure{name, idx, detail}
-		}
-	}
-	line := func(idx int, kind string, args []string, res string) {
-		if emit != nil {
-			emit(fmt.Sprintf("O\t%d\t%d\t%s\t%s\t=>\t%s", id, idx, kind, strings.Join(args, "\t"), res))
-		}
-	}
-	buf := t.Buf()
-	for idx, o := range p.Ops {
-		if fail != nil {
-			break
-		}
-		switch o.Op {
-		case "set", "del":
-			k := unhx(o.K)
-			v := unhx(o.V)
-			var err error
-			fops := fopsOf(o.F)
-			var itStale unionstore.Iterator
-			if o.Stale {
-				itStale, _ = buf.Iter(nil, nil)
-			}
-			pan := protect(func() {
-				switch {
-				case o.Op == "set" && len(fops) == 0:
-					err = buf.Set(k, v)
-				case o.Op == "set":
-					err = buf.SetWithFlags(k, v, fops...)
-				case len(fops) == 0:
-					err = buf.Delete(k)
-				default:
-					err = buf.DeleteWithFlags(k, fops...)
-				}
-			})
-			res := "ok"
-			if pan != "" {
-				res = "panic"
-			} else if err != nil {
-				res = "err"
-				if _, ok := err.(*tikverr.ErrKeyTooLarge); ok {
-					res = "keytoolarge"
-				} else if _, ok := err.(*tikverr.ErrEntryTooLarge); ok {
-					res = "entrytoolarge"
-				} else if _, ok := err.(*tikverr.ErrTxnTooLarge); ok {
-					res = "txntoolarge"
-				}
-			}
-			if o.Op == "del" {
-				v = nil
-			}
-			want := "ok"
-			applied := true
-			if o.Op == "set" && len(v) == 0 {
-				want, applied = "err", false
-			} else if len(k) > 65535 {
-				want, applied = "keytoolarge", false
-			} else if uint64(len(k)+len(v)) > ref.elim {
-				want, applied = "entrytoolarge", false
-			}
-			if applied {
-				ref.buf[string(k)] = v
-				ref.flags[string(k)] = refApply(ref.flags[string(k)], append([]int{18}, o.F...))
-				tr.write(string(k), v)
-				if uint64(ref.size()) > ref.blim {
-					want = "txntoolarge"
-				}
-			}
-			if !oracle("write-status(limits)", res == want) {
-				setFail("write-status(limits)", idx, res+" want "+want)
-			}
-			if o.Op == "set" {
-				line(idx, "set", []string{hd(o.K), hd(o.V), fopsString(o.F)}, res)
-			} else {
-				line(idx, "del", []string{hd(o.K), fopsString(o.F)}, res)
-			}
-			if itStale != nil {
-				// an iterator of the buffer that is used after a write must fail loudly (ART: sequence number)
-				if _, hasSeq := unionstore.VerifUnionWriteSeq(buf); hasSeq {
-					p2 := protect(func() { itStale.Valid() })
-					r2 := "ok"
-					if p2 != "" {
-						r2 = "panic"
-					}
-					line(idx, "stale", nil, r2)
-					if !oracle("stale-iterator-fails-loudly", (r2 == "panic") == applied) {
-						setFail("stale-iterator-fails-loudly", idx, r2)
-					}
-				}
-			}
-			// latest write wins, read back through the union store
-			var gv []byte
-			var found bool
-			var gerr error
-			pan = protect(func() { gv, found, gerr = t.Get(k) })
-			wv, wfound := ref.get(string(k))
-			ok := pan == "" && gerr == nil && found == wfound && bytes.Equal(gv, wv)
-			if !oracle("latest-write-wins", ok) {
-				setFail("latest-write-wins", idx, fmt.Sprintf("read back %s found=%v want %s found=%v %s", hx(gv), found, hx(wv), wfound, pan))
-			}
-		case "get":
-			k := unhx(o.K)
-			var gv []byte
-			var found bool
-			var gerr error
-			pan := protect(func() { gv, found, gerr = t.Get(k) })
-			res := "nf"
-			if pan != "" {
-				res = "panic"
-			} else if gerr != nil {
-				res = "err"
-			} else if found {
-				res = "v " + hd(hx(gv))
-			}
-			line(idx, "get", []string{hd(o.K)}, res)
-			wv, wfound := ref.get(string(k))
-			ok := pan == "" && gerr == nil && found == wfound && bytes.Equal(gv, wv)
-			if !oracle("get=overlay", ok) {
-				setFail("get=overlay", idx, fmt.Sprintf("got %s want %s found=%v", res, hx(wv), wfound))
-			}
-		case "bget":
-			var keys [][]byte
-			var args []string
-			for _, s := range o.Keys {
-				keys = append(keys, unhx(s))
-				args = append(args, hd(s))
-			}
-			var handed [][]byte
-			var have bool
-			var m map[string][]byte
-			var berr error
-			pan := protect(func() { handed, have, m, berr = t.BatchGet(keys) })
-			res := ""
-			if pan != "" {
-				res = "panic"
-			} else if berr != nil {
-				res = "err"
-			} else {
-				var l []KV
-				for k, v := range m {
-					l = append(l, KV{[]byte(k), v})
-				}
-				sort.Slice(l, func(i, j int) bool { return bytes.Compare(l[i].K, l[j].K) < 0 })
-				hs := "?"
-				if have {
-					var hl []string
-					for _, h := range handed {
-						hl = append(hl, hd(hx(h)))
-					}
-					hs = strings.Join(hl, ",")
-					if hs == "" {
-						hs = "none"
-					}
-				}
-				res = "handed=" + hs + "|res=" + kvsString(l)
-			}
-			line(idx, "bget", []string{strings.Join(args, ",")}, res)
-			ok := pan == "" && berr == nil
-			if ok {
-				want := map[string][]byte{}
-				for _, k := range keys {
-					if v, f := ref.get(string(k)); f {
-						want[string(k)] = v
-					}
-				}
-				ok = len(want) == len(m)
-				for k, v := range want {
-					if g, f := m[k]; !f || !bytes.Equal(g, v) {
-						ok = false
-					}
-				}
-			}
-			if !oracle("batchget=overlay", ok) {
-				setFail("batchget=overlay", idx, res)
-			}
-			if have && pan == "" && berr == nil {
-				ok2 := true
-				hm := map[string]bool{}
-				for _, h := range handed {
-					hm[string(h)] = true
-					if _, buffered := ref.buf[string(h)]; buffered {
-						ok2 = false // a buffered key was read from the snapshot again
-					}
-				}
-				for _, k := range keys {
-					if _, buffered := ref.buf[string(k)]; !buffered && !hm[string(k)] {
-						ok2 = false // an unbuffered key was not handed to the snapshot
-					}
-				}
-				if !oracle("batchget-shrinks-keys", ok2) {
-					setFail("batchget-shrinks-keys", idx, res)
-				}
-			}
-		case "iter", "riter":
-			lo, hi := unhx(o.Lo), unhx(o.Hi)
-			rev := o.Op == "riter"
-			var l []KV
-			var e string
-			pan := protect(func() {
-				if rev {
-					l, e = drain(t.IterReverse(hi, lo))
-				} else {
-					l, e = drain(t.Iter(lo, hi))
-				}
-			})
-			res := kvsString(l) + e
-			if pan != "" {
-				res = "panic"
-			}
-			line(idx, o.Op, []string{hd(o.Lo), hd(o.Hi)}, res)
-			good := pan == "" && e == ""
-			mono, inb, nonEmpty := true, true, true
-			for i, x := range l {
-				if i > 0 {
-					c := bytes.Compare(l[i-1].K, x.K)
-					if (!rev && c >= 0) || (rev && c <= 0) {
-						mono = false
-					}
-				}
-				if !inBounds(x.K, lo, hi) {
-					inb = false
-				}
-				if len(x.V) == 0 {
-					nonEmpty = false
-				}
-			}
-			if !oracle("iter-strictly-monotone", good && mono) {
-				setFail("iter-strictly-monotone", idx, res)
-			}
-			if !oracle("iter-within-bounds", good && inb) {
-				setFail("iter-within-bounds", idx, res)
-			}
-			if !oracle("iter-no-tombstone", good && nonEmpty) {
-				setFail("iter-no-tombstone", idx, res)
-			}
-			want := ref.list(lo, hi, rev)
-			if !oracle("iter=overlay", good && kvsString(want) == kvsString(l)) {
-				setFail("iter=overlay", idx, "got "+res+" want "+kvsString(want))
-			}
-		case "flush", "fdone", "fwait":
-			pt, isPipe := t.(*pipeTarget)
-			if !isPipe {
-				continue
-			}
-			res := "ok"
-			var pan string
-			switch o.Op {
-			case "flush":
-				if tr.depth() == 0 {
-					pt.complete() // Flush waits for the previous flush function
-				}
-				var ferr error
-				var flushed bool
-				pan = protect(func() { flushed, ferr = pt.buf.Flush(true) })
-				if ferr != nil || !flushed {
-					res = "err"
-				} else {
-					pt.pending = true
-					tr.log, tr.lastCp = nil, 0 // a fresh mutable buffer
-				}
-				if !oracle("flush-accepted-iff-no-staging-level", pan == "" && (res == "ok") == (tr.depth() == 0)) {
-					setFail("flush-accepted-iff-no-staging-level", idx, res+pan)
-				}
-			case "fdone":
-				pt.complete()
-			case "fwait":
-				pt.complete()
-				var ferr error
-				pan = protect(func() { ferr = pt.buf.FlushWait() })
-				if ferr != nil {
-					res = "err"
-				}
-			}
-			if pan != "" {
-				res = "panic"
-			}
-			line(idx, o.Op, nil, res)
-			// flushing never changes what the transaction reads
-			if want := ref.list(nil, nil, false); true {
-				okV := true
-				wm := map[string][]byte{}
-				for _, e := range want {
-					wm[string(e.K)] = e.V
-				}
-				for _, k := range pt.keys {
-					v, found, err := pt.Get(k)
-					wv, wfound := wm[string(k)]
-					if err != nil || found != wfound || !bytes.Equal(v, wv) {
-						okV = false
-					}
-				}
-				if !oracle("flush-invisible-to-reads", okV) {
-					setFail("flush-invisible-to-reads", idx, fullObs(t))
-				}
-			}
-		case "split":
-			// a region split under the running transaction (real KVTxn tier only); not an operation of the model
-			if o.H == 1 {
-				storeSingle = false // directed programs split whatever the store's layout
-			}
-			if _, isTxn := t.(*txnTarget); isTxn && theCluster != nil && !storeSingle {
-				k := unhx(o.K)
-				mk := mocktikv.NewMvccKey(k) // the mock cluster is keyed by encoded keys
-				if r, _, _, _ := theCluster.GetRegionByKey(mk); r != nil && !bytes.Equal(r.StartKey, mk) && len(k) > 0 {
-					storeMultiRegion = true
-					ids := theCluster.AllocIDs(2)
-					theCluster.Split(r.Id, ids[0], k, []uint64{ids[1]}, ids[1])
-					if countStats {
-						gstats["txn-mid-program-splits"]++
-					}
-				}
-			}
-		case "uflags":
-			k := unhx(o.K)
-			fops := fopsOf(o.F)
-			ff := o.F
-			pan := protect(func() {
-				if us, isUS := t.(*usTarget); isUS && o.Unmark {
-					us.us.UnmarkPresumeKeyNotExists(k) // = UpdateFlags(k, DelPresumeKeyNotExists)
-				} else if o.Unmark {
-					buf.UpdateFlags(k, kv.DelPresumeKeyNotExists)
-				} else {
-					buf.UpdateFlags(k, fops...)
-				}
-			})
-			if o.Unmark {
-				ff = []int{1}
-			}
-			res := "ok"
-			if pan != "" {
-				res = "panic"
-			}
-			if len(k) <= 65535 { // a longer key is silently ignored
-				ref.flags[string(k)] = refApply(ref.flags[string(k)], ff)
-			}
-			line(idx, "uflags", []string{hd(o.K), fopsString(ff)}, res)
-			if !oracle("flags-update-accepted", pan == "") {
-				setFail("flags-update-accepted", idx, pan)
-			}
-		case "limits":
-			e, b := o.E, o.B
-			if e == 0 {
-				e = ^uint64(0)
-			}
-			if b == 0 {
-				b = ^uint64(0)
-			}
-			buf.SetEntrySizeLimit(e, b)
-			ref.elim, ref.blim = e, b
-			line(idx, "limits", []string{strconv.FormatUint(e, 16), strconv.FormatUint(b, 16)}, "ok")
-		case "gflags":
-			k := unhx(o.K)
-			var f kv.KeyFlags
-			var ferr error
-			pan := protect(func() { f, ferr = buf.GetFlags(k) })
-			res := "nf"
-			if pan != "" {
-				res = "panic"
-			} else if ferr == nil {
-				res = "f " + strconv.Itoa(int(f))
-			}
-			line(idx, "gflags", []string{hd(o.K)}, res)
-			wf, ok := ref.flags[string(k)]
-			want := "nf"
-			if ok {
-				want = "f " + strconv.Itoa(int(wf))
-			}
-			if !oracle("flags=fold-of-flag-ops", res == want) {
-				setFail("flags=fold-of-flag-ops", idx, res+" want "+want)
-			}
-			if us, isUS := t.(*usTarget); isUS {
-				has := us.us.HasPresumeKeyNotExists(k)
-				if !oracle("has-presume-kne", has == (ok && wf&(1|4096) != 0)) {
-					setFail("has-presume-kne", idx, fmt.Sprint(has))
-				}
-			}
-		case "dirty":
-			var d bool
-			pan := protect(func() { d = buf.Dirty() })
-			res := strconv.FormatBool(d)
-			if pan != "" {
-				res = "panic"
-			}
-			line(idx, "dirty", nil, res)
-			// a buffer that holds a value or a flag written outside every staging level is dirty; never clean again
-			if !oracle("dirty-is-monotone", pan == "" && (d || !wasDirty)) {
-				setFail("dirty-is-monotone", idx, res)
-			}
-			wasDirty = wasDirty || d
-		case "sseq":
-			if n, ok := unionstore.VerifUnionSnapshotSeq(buf); ok {
-				line(idx, "sseq", nil, strconv.Itoa(n))
-			}
-		case "len":
-			var n, sz int
-			pan := protect(func() { n, sz = buf.Len(), buf.Size() })
-			res := fmt.Sprintf("len %d size %d", n, sz)
-			if pan != "" {
-				res = "panic"
-			}
-			line(idx, "len", nil, res)
-			if !oracle("len=existing-keys,size=keys+values", pan == "" && n == len(ref.flags) && sz == ref.size()) {
-				setFail("len=existing-keys,size=keys+values", idx, fmt.Sprintf("%s want len %d size %d", res, len(ref.flags), ref.size()))
-			}
-		case "iterf", "riterf":
-			lo, hi := unhx(o.Lo), unhx(o.Hi)
-			rev := o.Op == "riterf"
-			if rev {
-				lo = nil
-			}
-			var l []unionstore.VerifUnionFlagged
-			var okT bool
-			pan := protect(func() { l, okT = unionstore.VerifUnionIterWithFlags(buf, lo, hi, rev) })
-			if pan == "" && !okT {
-				continue
-			}
-			var parts []string
-			for _, e := range l {
-				v := "nil"
-				if e.HasV {
-					v = hd(hx(e.V))
-				}
-				parts = append(parts, hd(hx(e.K))+":"+strconv.Itoa(int(e.F))+":"+v)
-			}
-			res := strings.Join(parts, ",")
-			if res == "" {
-				res = "-"
-			}
-			if pan != "" {
-				res = "panic"
-			}
-			line(idx, o.Op, []string{hd(hx(lo)), hd(o.Hi)}, res)
-			// every existing key in bounds, in order, with the folded flags and the current value
-			var keys []string
-			for k := range ref.flags {
-				if inBounds([]byte(k), lo, hi) {
-					keys = append(keys, k)
-				}
-			}
-			sort.Strings(keys)
-			if rev {
-				for i, j := 0, len(keys)-1; i < j; i, j = i+1, j-1 {
-					keys[i], keys[j] = keys[j], keys[i]
-				}
-			}
-			var wparts []string
-			for _, k := range keys {
-				v := "nil"
-				if bv, has := ref.buf[k]; has {
-					v = hd(hx(bv))
-				}
-				wparts = append(wparts, hd(hx([]byte(k)))+":"+strconv.Itoa(int(ref.flags[k]))+":"+v)
-			}
-			want := strings.Join(wparts, ",")
-			if want == "" {
-				want = "-"
-			}
-			if !oracle("iter-with-flags=existing-keys", res == want) {
-				setFail("iter-with-flags=existing-keys", idx, res+" want "+want)
-			}
-		case "sget":
-			k := unhx(o.K)
-			var ve kv.ValueEntry
-			var gerr error
-			pan := protect(func() { ve, gerr = buf.SnapshotGetter().Get(context.Background(), k) })
-			res := "nf"
-			if pan != "" {
-				res = "panic"
-			} else if gerr == nil {
-				res = "v " + hd(hx(ve.Value))
-			} else if !tikverr.IsErrNotFound(gerr) {
-				res = "err"
-			}
-			line(idx, "sget", []string{hd(o.K)}, res)
-			base := ref.buf
-			if len(ref.stack) > 0 {
-				base = ref.stack[0]
-			}
-			want := "nf"
-			if bv, has := base[string(k)]; has {
-				want = "v " + hd(hx(bv))
-			}
-			if !oracle("snapshot-read-ignores-staging", res == want) {
-				setFail("snapshot-read-ignores-staging", idx, res+" want "+want)
-			}
-		case "sbget":
-			// BufferSnapshotBatchGetter: the second copy of the batch-get merge loop, over the staging-blind view
-			if _, isPipe := t.(*pipeTarget); isPipe {
-				continue
-			}
-			var keys [][]byte
-			var args []string
-			for _, h := range o.Keys {
-				keys = append(keys, unhx(h))
-				args = append(args, hd(h))
-			}
-			var m map[string]kv.ValueEntry
-			var berr error
-			var handed [][]byte
-			have := false
-			pan := protect(func() {
-				switch tt := t.(type) {
-				case *usTarget:
-					tt.snap.handed = nil
-					m, berr = transaction.NewBufferSnapshotBatchGetter(snapBuf{buf.SnapshotGetter()}, tt.snap).BatchGet(context.Background(), keys)
-					handed, have = tt.snap.handed, true
-				case *txnTarget:
-					m, berr = transaction.NewBufferSnapshotBatchGetter(snapBuf{buf.SnapshotGetter()}, tt.txn.GetSnapshot()).BatchGet(context.Background(), keys)
-				}
-			})
-			res := ""
-			if pan != "" {
-				res = "panic"
-			} else if berr != nil {
-				res = "err"
-			} else {
-				var l []KV
-				for k, v := range m {
-					l = append(l, KV{[]byte(k), v.Value})
-				}
-				sort.Slice(l, func(i, j int) bool { return bytes.Compare(l[i].K, l[j].K) < 0 })
-				hs := "?"
-				if have {
-					var hl []string
-					for _, h := range handed {
-						hl = append(hl, hd(hx(h)))
-					}
-					hs = strings.Join(hl, ",")
-					if hs == "" {
-						hs = "none"
-					}
-				}
-				res = "handed=" + hs + "|res=" + kvsString(l)
-			}
-			line(idx, "sbget", []string{strings.Join(args, ",")}, res)
-			base := ref.buf
-			if len(ref.stack) > 0 {
-				base = ref.stack[0]
-			}
-			okS := pan == "" && berr == nil
-			if okS {
-				want := map[string][]byte{}
-				for _, k := range keys {
-					if bv, has := base[string(k)]; has {
-						if len(bv) > 0 {
-							want[string(k)] = bv
-						}
-					} else if sv, has := ref.snap[string(k)]; has {
-						want[string(k)] = sv
-					}
-				}
-				okS = len(want) == len(m)
-				for k, v := range want {
-					if g, f := m[k]; !f || !bytes.Equal(g.Value, v) {
-						okS = false
-					}
-				}
-				if have {
-					hm := map[string]bool{}
-					for _, h := range handed {
-						hm[string(h)] = true
-						if _, b := base[string(h)]; b {
-							okS = false
-						}
-					}
-					for _, k := range keys {
-						if _, b := base[string(k)]; !b && !hm[string(k)] {
-							okS = false
-						}
-					}
-				}
-			}
-			if !oracle("snapshot-batchget=base-overlay", okS) {
-				setFail("snapshot-batchget=base-overlay", idx, res)
-			}
-		case "snapnew", "snapget", "snapscan":
-			// a MemBufferSnapshot object (GetSnapshot) kept across operations: it answers with the staging-blind view
-			// of its creation as long as SnapshotSeqNo has not moved, and refuses ("invalid iter") afterwards
-			if _, hasSeq := unionstore.VerifUnionSnapshotSeq(buf); !hasSeq {
-				continue // RBT keeps no sequence number: its snapshot objects never refuse (code behaviour, not compared)
-			}
-			if o.Op == "snapnew" {
-				pan := protect(func() { snapObj = buf.GetSnapshot() })
-				snapBase = copyMap(ref.buf)
-				if len(ref.stack) > 0 {
-					snapBase = copyMap(ref.stack[0])
-				}
-				res := "ok"
-				if pan != "" {
-					res = "panic"
-				}
-				line(idx, "snapnew", nil, res)
-				continue
-			}
-			if snapObj == nil {
-				continue
-			}
-			res, okO := "", true
-			if o.Op == "snapget" {
-				k := unhx(o.K)
-				var ve kv.ValueEntry
-				var gerr error
-				pan := protect(func() { ve, gerr = snapObj.Get(context.Background(), k) })
-				switch {
-				case pan != "":
-					res = "panic"
-				case gerr == nil:
-					res = "v " + hd(hx(ve.Value))
-				case tikverr.IsErrNotFound(gerr):
-					res = "nf"
-				case strings.Contains(gerr.Error(), "invalid iter"):
-					res = "invalid"
-				default:
-					res = "err"
-				}
-				line(idx, "snapget", []string{hd(o.K)}, res)
-				if res != "invalid" {
-					want := "nf"
-					if bv, has := snapBase[string(k)]; has {
-						want = "v " + hd(hx(bv))
-					}
-					okO = res == want
-				}
-			} else {
-				lo, hi := unhx(o.Lo), unhx(o.Hi)
-				rev := o.H == 1
-				var l []KV
-				invalid := false
-				pan := protect(func() {
-					it := snapObj.BatchedSnapshotIter(lo, hi, rev)
-					for n := 0; it.Valid() && n < maxIter; n++ {
-						l = append(l, KV{append([]byte{}, it.Key()...), append([]byte{}, it.Value()...)})
-						if e := it.Next(); e != nil {
-							invalid = true
-							break
-						}
-					}
-					if e := it.Next(); e != nil && strings.Contains(e.Error(), "invalid iter") {
-						invalid = true
-					}
-					it.Close()
-				})
-				res = kvsString(l)
-				if invalid {
-					res = "invalid"
-				}
-				if pan != "" {
-					res = "panic"
-				}
-				dir := "fwd"
-				if rev {
-					dir = "rev"
-				}
-				line(idx, "snapscan", []string{hd(o.Lo), hd(o.Hi), dir}, res)
-				if res != "invalid" {
-					var wl []KV
-					for k, v := range snapBase {
-						if inBounds([]byte(k), lo, hi) {
-							wl = append(wl, KV{[]byte(k), v})
-						}
-					}
-					sort.Slice(wl, func(i, j int) bool {
-						c := bytes.Compare(wl[i].K, wl[j].K)
-						if rev {
-							return c > 0
-						}
-						return c < 0
-					})
-					okO = kvsString(wl) == res
-				}
-			}
-			if !oracle("snapshot-object=view-at-creation-or-invalid", okO) {
-				setFail("snapshot-object=view-at-creation-or-invalid", idx, res)
-			}
-		case "siter", "sriter":
-			lo, hi := unhx(o.Lo), unhx(o.Hi)
-			rev := o.Op == "sriter"
-			var l []KV
-			var e string
-			pan := protect(func() {
-				if rev {
-					l, e = drain(buf.SnapshotIterReverse(hi, lo), nil)
-				} else {
-					l, e = drain(buf.SnapshotIter(lo, hi), nil)
-				}
-			})
-			res := kvsString(l) + e
-			if pan != "" {
-				res = "panic"
-			}
-			line(idx, o.Op, []string{hd(o.Lo), hd(o.Hi)}, res)
-			base := ref.buf
-			if len(ref.stack) > 0 {
-				base = ref.stack[0]
-			}
-			var wl []KV
-			for k, v := range base {
-				if inBounds([]byte(k), lo, hi) {
-					wl = append(wl, KV{[]byte(k), v})
-				}
-			}
-			sort.Slice(wl, func(i, j int) bool {
-				c := bytes.Compare(wl[i].K, wl[j].K)
-				if rev {
-					return c > 0
-				}
-				return c < 0
-			})
-			if !oracle("snapshot-iter-ignores-staging", pan == "" && e == "" && kvsString(wl) == kvsString(l)) {
-				setFail("snapshot-iter-ignores-staging", idx, res+" want "+kvsString(wl))
-			}
-		case "hist":
-			k := unhx(o.K)
-			var hl [][]byte
-			var herr error
-			pan := protect(func() { hl, herr = unionstore.VerifUnionHistory(buf, k) })
-			res := "nf"
-			if pan != "" {
-				res = "panic"
-			} else if herr == nil {
-				var parts []string
-				for _, v := range hl {
-					parts = append(parts, hd(hx(v)))
-				}
-				res = "h " + strings.Join(parts, ",")
-			}
-			line(idx, "hist", []string{hd(o.K)}, res)
-			// the newest version is the buffered value; a key without value has no history
-			bv, has := ref.buf[string(k)]
-			ok := pan == "" && (has == (herr == nil)) && (!has || (len(hl) > 0 && bytes.Equal(hl[0], bv)))
-			if !oracle("history-head=buffered-value", ok) {
-				setFail("history-head=buffered-value", idx, res)
-			}
-		case "inspect":
-			h := o.H
-			if h < 0 {
-				h = tr.depth()
-			}
-			if h < 1 || h > tr.depth() {
-				continue
-			}
-			var parts []string
-			seen := map[string]bool{}
-			dup := false
-			pan := protect(func() {
-				buf.InspectStage(h, func(k []byte, f kv.KeyFlags, v []byte) {
-					if seen[string(k)] {
-						dup = true
-					}
-					seen[string(k)] = true
-					parts = append(parts, hd(hx(k))+":"+strconv.Itoa(int(f))+":"+hd(hx(v)))
-				})
-			})
-			res := strings.Join(parts, ",")
-			if res == "" {
-				res = "-"
-			}
-			if pan != "" {
-				res = "panic"
-			}
-			line(idx, "inspect", []string{strconv.Itoa(h)}, res)
-			// exactly the keys whose buffered value differs from (or is newer than) the one at Staging h: at
-			// least every key whose value changed since, each once, with its current value
-			okI := pan == "" && !dup
-			before := ref.stack[h-1]
-			for k, v := range ref.buf {
-				if bv, had := before[k]; !had || !bytes.Equal(bv, v) {
-					if !seen[k] {
-						okI = false
-					}
-				}
-			}
-			if !oracle("inspect-stage-covers-changes", okI) {
-				setFail("inspect-stage-covers-changes", idx, res)
-			}
-		case "staging":
-			obs := fullObs(t)
-			var h int
-			pan := protect(func() { h = buf.Staging() })
-			res := "h " + strconv.Itoa(h)
-			if pan != "" {
-				res = "panic"
-			}
-			tr.staging()
-			ref.stack = append(ref.stack, copyMap(ref.buf))
-			stageObs = append(stageObs, obs)
-			line(idx, "staging", nil, res)
-			if !oracle("staging-handle", pan == "" && h == tr.depth()) {
-				setFail("staging-handle", idx, res)
-			}
-		case "release", "cleanup":
-			h := o.H
-			if h < 0 {
-				h = tr.depth()
-			}
-			live := h == tr.depth() && h > 0
-			before := ""
-			if !live || o.Op == "release" {
-				before = fullObs(t)
-			}
-			pan := protect(func() {
-				if o.Op == "release" {
-					buf.Release(h)
-				} else {
-					buf.Cleanup(h)
-				}
-			})
-			res := "ok"
-			if pan != "" {
-				res = "panic"
-			}
-			line(idx, o.Op, []string{strconv.Itoa(h)}, res)
-			expectPanic := (o.Op == "release" && h != 0 && h != tr.depth()) || (o.Op == "cleanup" && h > 0 && h < tr.depth())
-			if !oracle("savepoint-misuse-rejected", (pan != "") == expectPanic) {
-				setFail("savepoint-misuse-rejected", idx, res+" "+pan)
-			}
-			if live {
-				n := len(stageObs) - 1
-				if o.Op == "release" {
-					tr.release()
-					if !oracle("release-keeps", fullObs(t) == before) {
-						setFail("release-keeps", idx, "view changed by release")
-					}
-				} else {
-					tr.cleanup()
-					ref.undoTo(ref.stack[n])
-					for id := range ref.cps {
-						if _, ok := tr.cps[id]; !ok {
-							delete(ref.cps, id)
-						}
-					}
-					after := fullObs(t)
-					if !oracle("cleanup-restores", after == stageObs[n]) {
-						setFail("cleanup-restores", idx, "before-staging "+stageObs[n]+" after-cleanup "+after)
-					}
-				}
-				ref.stack = ref.stack[:n]
-				stageObs = stageObs[:n]
-			} else if pan == "" {
-				// no-op calls must not change the view
-				if !oracle("noop-savepoint-call", fullObs(t) == before) {
-					setFail("noop-savepoint-call", idx, "view changed")
-				}
-			}
-		case "cp":
-			var c *unionstore.MemDBCheckpoint
-			pan := protect(func() { c = buf.Checkpoint() })
-			if pan != "" {
-				setFail("checkpoint", idx, pan)
-				break
-			}
-			realCps[o.ID] = c
-			tr.checkpoint(o.ID)
-			ref.cps[o.ID] = copyMap(ref.buf)
-			cpObs[o.ID] = fullObs(t)
-			line(idx, "cp", []string{strconv.Itoa(o.ID)}, "ok")
-		case "revert":
-			if !tr.canRevert(o.ID) {
-				continue // dead checkpoint or below the top staging level: not a legal call, skipped
-			}
-			pan := protect(func() { buf.RevertToCheckpoint(realCps[o.ID]) })
-			res := "ok"
-			if pan != "" {
-				res = "panic"
-			}
-			tr.revert(o.ID)
-			ref.undoTo(copyMap(ref.cps[o.ID]))
-			for id := range ref.cps {
-				if _, ok := tr.cps[id]; !ok {
-					delete(ref.cps, id)
-				}
-			}
-			line(idx, "revert", []string{strconv.Itoa(o.ID)}, res)
-			after := fullObs(t)
-			if !oracle("revert-restores", pan == "" && after == cpObs[o.ID]) {
-				setFail("revert-restores", idx, "at-checkpoint "+cpObs[o.ID]+" after-revert "+after+" "+pan)
-			}
-		}
-	}
-	if emit != nil {
-		emit(fmt.Sprintf("END\t%d", id))
-	}
-	return fail, false
-}
-
-// ---------------------------------------------------------------- minimiser (in process)
-func fails(p *Program, wantFired *bool) (*failure, bool) {
-	save := countStats
-	countStats = false
-	defer func() { countStats = save }()
-	f, fired := execProgram(0, p, nil)
-	if f == nil {
-		return nil, fired
-	}
-	if wantFired != nil && fired != *wantFired {
-		return nil, fired
-	}
-	return f, fired
-}
-func cloneProg(p *Program) *Program {
-	q := *p
-	q.Snap = append([][2]string{}, p.Snap...)
-	q.Ops = append([]Op{}, p.Ops...)
-	return &q
-}
-
-// minimise: 1-minimal w.r.t. removing an op, a snapshot entry, a batch key; under the constraint that the
-// predicted F03 status equals wantFired (nil = unconstrained)
-func minimise(p *Program, wantFired *bool) *Program {
-	cur := cloneProg(p)
-	f, _ := fails(cur, wantFired)
-	if f == nil {
-		return nil
-	}
-	if f.idx+1 < len(cur.Ops) {
-		cur.Ops = cur.Ops[:f.idx+1]
-	}
-	for changed := true; changed; {
-		changed = false
-		for i := len(cur.Ops) - 1; i >= 0; i-- {
-			c := cloneProg(cur)
-			c.Ops = append(c.Ops[:i:i], cur.Ops[i+1:]...)
-			if f, _ := fails(c, wantFired); f != nil {
-				cur = c
-				changed = true
-			}
-		}
-		for i := len(cur.Snap) - 1; i >= 0; i-- {
-			c := cloneProg(cur)
-			c.Snap = append(c.Snap[:i:i], cur.Snap[i+1:]...)
-			if f, _ := fails(c, wantFired); f != nil {
-				cur = c
-				changed = true
-			}
-		}
-		for i := range cur.Ops {
-			for j := len(cur.Ops[i].Keys) - 1; j >= 0 && len(cur.Ops[i].Keys) > 1; j-- {
-				c := cloneProg(cur)
-				ks := append([]string{}, cur.Ops[i].Keys[:j]...)
-				ks = append(ks, cur.Ops[i].Keys[j+1:]...)
-				c.Ops[i].Keys = ks
-				if f, _ := fails(c, wantFired); f != nil {
-					cur = c
-					changed = true
-				}
-			}
-			if len(cur.Ops[i].F) > 0 || cur.Ops[i].Stale {
-				c := cloneProg(cur)
-				c.Ops[i].F, c.Ops[i].Stale = nil, false
-				if f, _ := fails(c, wantFired); f != nil {
-					cur = c
-					changed = true
-				}
-			}
-			if cur.Ops[i].Lo != "" || cur.Ops[i].Hi != "" {
-				c := cloneProg(cur)
-				c.Ops[i].Lo, c.Ops[i].Hi = "", ""
-				if f, _ := fails(c, wantFired); f != nil {
-					cur = c
-					changed = true
-				}
-			}
-		}
-	}
-	return cur
-}
-
-// ---------------------------------------------------------------- generator
-var gstats = map[string]int{}
-
-func keyPool(r *rand.Rand, txn bool) [][]byte {
-	base := [][]byte{{}, {0}, {0, 0}, {0xff}, {0xff, 0xff}, {0xff, 0}, {'a'}, {'a', 0}, {'a', 0, 0}, {'a', 0xff}, {'a', 0xff, 0xff},
-		{'a', 'b'}, {'a', 'b', 0}, {'a', 1}, {'b'}, {'b', 0xff}, {0, 0xff}, {0xfe}, {1}, {'a', 'a', 'a', 'a', 'a', 'a', 'a', 'a', 'a', 'a', 'a', 'a', 'a', 'a', 'a', 'a', 'a', 'a', 'a', 'a', 'a', 'a', 'b'},
-		{'a', 'a', 'a', 'a', 'a', 'a', 'a', 'a', 'a', 'a', 'a', 'a', 'a', 'a', 'a', 'a', 'a', 'a', 'a', 'a', 'a', 'a', 'c'}}
-	alpha := []byte{0, 1, 'a', 'b', 0xfe, 0xff}
-	n := 3 + r.Intn(9)
-	seen := map[string]bool{}
-	var pool [][]byte
-	for len(pool) < n {
-		var k []byte
-		switch r.Intn(4) {
-		case 0, 1:
-			k = base[r.Intn(len(base))]
-		case 2:
-			l := 1 + r.Intn(3)
-			for i := 0; i < l; i++ {
-				k = append(k, alpha[r.Intn(len(alpha))])
-			}
-		default: // extend an existing pool key: prefix relation
-			if len(pool) > 0 {
-				k = append(append([]byte{}, pool[r.Intn(len(pool))]...), alpha[r.Intn(len(alpha))])
-			} else {
-				k = []byte{'a'}
-			}
-		}
-		if txn && len(k) == 0 {
-			continue
-		}
-		if !seen[string(k)] {
-			seen[string(k)] = true
-			pool = append(pool, k)
-		}
-	}
-	return pool
-}
-func genValue(r *rand.Rand, big bool) []byte {
-	alpha := []byte{'x', 'y', 0, 0xff}
-	l := 1 + r.Intn(3)
-	if big && r.Intn(12) == 0 {
-		l = 1200 + r.Intn(3000)
-	}
-	v := make([]byte, l)
-	for i := range v {
-		v[i] = alpha[r.Intn(len(alpha))]
-	}
-	return v
-}
-func genBound(r *rand.Rand, pool [][]byte) []byte {
-	switch r.Intn(6) {
-	case 0, 1:
-		return nil
-	case 2:
-		return append(append([]byte{}, pool[r.Intn(len(pool))]...), 0)
-	case 3:
-		k := pool[r.Intn(len(pool))]
-		if len(k) > 0 {
-			return k[:len(k)-1]
-		}
-		return k
-	default:
-		return pool[r.Intn(len(pool))]
-	}
-}
-
-func genProgram(r *rand.Rand, targetKind string, nops int, big bool) *Program {
-	p := &Program{Target: targetKind}
-	txn := targetKind == "txn"
-	pool := keyPool(r, txn)
-	for _, k := range pool {
-		if r.Intn(2) == 0 {
-			p.Snap = append(p.Snap, [2]string{hx(k), hx(genValue(r, false))})
-		}
-	}
-	tr := newTracker()
-	nextCp := 1
-	var lastBget []string
-	limited := r.Intn(8) == 0 // programs that play with the entry / buffer size limits
-	pick := func() []byte { return pool[r.Intn(len(pool))] }
-	for len(p.Ops) < nops {
-		x := r.Intn(127)
-		if txn && r.Intn(40) == 0 {
-			p.Ops = append(p.Ops, Op{Op: "split", K: hx(genBound(r, pool))})
-			continue
-		}
-		genFops := func() []int {
-			if r.Intn(4) != 0 {
-				return nil
-			}
-			n := 1 + r.Intn(2)
-			var f []int
-			for i := 0; i < n; i++ {
-				switch r.Intn(6) {
-				case 0:
-					f = append(f, 0) // SetPresumeKeyNotExists
-				case 1:
-					f = append(f, 19) // SetPreviousPresumeKNE
-				default:
-					f = append(f, r.Intn(22))
-				}
-			}
-			return f
-		}
-		switch {
-		case x >= 100 && x < 106:
-			f := genFops()
-			if f == nil {
-				f = []int{r.Intn(22)}
-			}
-			if r.Intn(5) == 0 {
-				p.Ops = append(p.Ops, Op{Op: "uflags", K: hx(pick()), Unmark: true})
-			} else {
-				p.Ops = append(p.Ops, Op{Op: "uflags", K: hx(pick()), F: f})
-			}
-		case x >= 106 && x < 110:
-			p.Ops = append(p.Ops, Op{Op: "gflags", K: hx(pick())})
-		case x >= 110 && x < 113:
-			switch r.Intn(3) {
-			case 0:
-				p.Ops = append(p.Ops, Op{Op: "dirty"})
-			case 1:
-				p.Ops = append(p.Ops, Op{Op: "sseq"})
-			default:
-				p.Ops = append(p.Ops, Op{Op: "len"})
-			}
-		case x >= 113 && x < 116:
-			if r.Intn(3) == 0 {
-				p.Ops = append(p.Ops, Op{Op: "riterf", Hi: hx(genBound(r, pool))})
-			} else {
-				p.Ops = append(p.Ops, Op{Op: "iterf", Lo: hx(genBound(r, pool)), Hi: hx(genBound(r, pool))})
-			}
-		case x >= 116 && x < 118:
-			if r.Intn(2) == 0 {
-				n := 1 + r.Intn(4)
-				var ks []string
-				for i := 0; i < n; i++ {
-					ks = append(ks, hx(pick()))
-				}
-				if r.Intn(2) == 0 {
-					ks = append(ks, ks[r.Intn(len(ks))])
-				}
-				p.Ops = append(p.Ops, Op{Op: "sbget", Keys: ks})
-			} else if r.Intn(2) == 0 {
-				p.Ops = append(p.Ops, Op{Op: "sget", K: hx(pick())})
-			} else if r.Intn(3) == 0 {
-				p.Ops = append(p.Ops, Op{Op: "snapnew"})
-			} else {
-				p.Ops = append(p.Ops, Op{Op: "snapget", K: hx(pick())})
-			}
-		case x >= 118 && x < 121:
-			kind := "siter"
-			if r.Intn(2) == 0 {
-				kind = "sriter"
-			}
-			p.Ops = append(p.Ops, Op{Op: kind, Lo: hx(genBound(r, pool)), Hi: hx(genBound(r, pool))})
-		case x >= 121 && x < 123:
-			switch r.Intn(5) {
-			case 0:
-				p.Ops = append(p.Ops, Op{Op: "snapnew"})
-			case 1, 2:
-				p.Ops = append(p.Ops, Op{Op: "snapget", K: hx(pick())})
-			case 3:
-				p.Ops = append(p.Ops, Op{Op: "snapscan", Lo: hx(genBound(r, pool)), Hi: hx(genBound(r, pool)), H: r.Intn(2)})
-			default:
-				p.Ops = append(p.Ops, Op{Op: "hist", K: hx(pick())})
-			}
-		case x >= 123 && x < 125:
-			if tr.depth() > 0 {
-				p.Ops = append(p.Ops, Op{Op: "inspect", H: 1 + r.Intn(tr.depth())})
-			}
-		case x >= 125:
-			if limited && r.Intn(3) != 0 {
-				p.Ops = append(p.Ops, Op{Op: "limits"}) // back to unlimited
-			} else if limited {
-				p.Ops = append(p.Ops, Op{Op: "limits", E: uint64(3 + r.Intn(6)), B: uint64(8 + r.Intn(40))})
-			}
-		case x < 28:
-			k := pick()
-			v := genValue(r, big)
-			if r.Intn(40) == 0 {
-				v = nil
-			}
-			if len(v) > 0 && tr.inplaceIdx(string(k), v) < 0 && tr.head(string(k)) >= 0 && len(tr.log[tr.head(string(k))].v) == len(v) {
-				gstats["same-length-overwrite-not-in-place(protected)"]++
-			}
-			if len(v) > 0 {
-				if tr.inplaceIdx(string(k), v) >= 0 {
-					gstats["inplace-overwrite"]++
-				}
-				tr.write(string(k), v)
-			}
-			p.Ops = append(p.Ops, Op{Op: "set", K: hx(k), V: hx(v), F: genFops(), Stale: r.Intn(15) == 0})
-		case x < 40:
-			k := pick()
-			tr.write(string(k), nil)
-			p.Ops = append(p.Ops, Op{Op: "del", K: hx(k), F: genFops(), Stale: r.Intn(20) == 0})
-		case x < 50:
-			p.Ops = append(p.Ops, Op{Op: "get", K: hx(pick())})
-		case x < 58:
-			n := 1 + r.Intn(5)
-			var ks []string
-			for i := 0; i < n; i++ {
-				ks = append(ks, hx(pick()))
-			}
-			// directed class: a key listed twice, preferably one whose buffered value is a tombstone
-			if r.Intn(3) == 0 {
-				var tombs []string
-				for _, k := range pool {
-					if i := tr.head(string(k)); i >= 0 && len(tr.log[i].v) == 0 {
-						tombs = append(tombs, hx(k))
-					}
-				}
-				if len(tombs) > 0 {
-					k := tombs[r.Intn(len(tombs))]
-					pos := r.Intn(len(ks) + 1)
-					ks = append(ks[:pos:pos], append([]string{k}, ks[pos:]...)...)
-					ks = append(ks, k)
-					gstats["bget-duplicated-tombstone-key"]++
-				} else {
-					ks = append(ks, ks[r.Intn(len(ks))])
-					gstats["bget-duplicated-key"]++
-				}
-			}
-			if txn && lastBget != nil && r.Intn(3) == 0 {
-				ks = lastBget // same keys again: the snapshot's value cache is warm
-				gstats["txn-bget-repeated-keys"]++
-			}
-			lastBget = ks
-			p.Ops = append(p.Ops, Op{Op: "bget", Keys: ks})
-		case x < 68:
-			p.Ops = append(p.Ops, Op{Op: "iter", Lo: hx(genBound(r, pool)), Hi: hx(genBound(r, pool))})
-		case x < 78:
-			p.Ops = append(p.Ops, Op{Op: "riter", Lo: hx(genBound(r, pool)), Hi: hx(genBound(r, pool))})
-		case x < 84:
-			if tr.depth() < 4 {
-				tr.staging()
-				p.Ops = append(p.Ops, Op{Op: "staging"})
-			}
-		case x < 88:
-			if r.Intn(25) == 0 && !txn {
-				p.Ops = append(p.Ops, Op{Op: "release", H: r.Intn(5)}) // possibly a wrong handle
-				if h := p.Ops[len(p.Ops)-1].H; h == tr.depth() && h > 0 {
-					tr.release()
-				}
-			} else if tr.depth() > 0 {
-				tr.release()
-				p.Ops = append(p.Ops, Op{Op: "release", H: -1})
-			}
-		case x < 92:
-			if r.Intn(25) == 0 && !txn {
-				p.Ops = append(p.Ops, Op{Op: "cleanup", H: r.Intn(5)})
-				if h := p.Ops[len(p.Ops)-1].H; h == tr.depth() && h > 0 {
-					tr.cleanup()
-				}
-			} else if tr.depth() > 0 {
-				tr.cleanup()
-				p.Ops = append(p.Ops, Op{Op: "cleanup", H: -1})
-			}
-		case x < 96:
-			tr.checkpoint(nextCp)
-			p.Ops = append(p.Ops, Op{Op: "cp", ID: nextCp})
-			nextCp++
-		default:
-			var ok []int
-			for id := range tr.cps {
-				if tr.canRevert(id) {
-					ok = append(ok, id)
-				}
-			}
-			if len(ok) > 0 {
-				sort.Ints(ok)
-				id := ok[r.Intn(len(ok))]
-				tr.revert(id)
-				p.Ops = append(p.Ops, Op{Op: "revert", ID: id})
-			}
-		}
-	}
-	return p
-}
-
-// programs for the pipelined buffer: writes, point / batch reads, staging levels and a scripted flush schedule
-func genPipeProgram(r *rand.Rand, nops int) *Program {
-	p := &Program{Target: "pipe"}
-	pool := keyPool(r, false)
-	for _, k := range pool {
-		if r.Intn(2) == 0 {
-			p.Snap = append(p.Snap, [2]string{hx(k), hx(genValue(r, false))})
-		}
-	}
-	pick := func() []byte { return pool[r.Intn(len(pool))] }
-	depth := 0
-	for len(p.Ops) < nops {
-		x := r.Intn(100)
-		switch {
-		case x < 20:
-			v := genValue(r, false)
-			if r.Intn(40) == 0 {
-				v = nil
-			}
-			p.Ops = append(p.Ops, Op{Op: "set", K: hx(pick()), V: hx(v)})
-		case x < 34:
-			p.Ops = append(p.Ops, Op{Op: "del", K: hx(pick())})
-		case x < 52:
-			p.Ops = append(p.Ops, Op{Op: "get", K: hx(pick())})
-		case x < 66:
-			n := 1 + r.Intn(4)
-			var ks []string
-			for i := 0; i < n; i++ {
-				ks = append(ks, hx(pick()))
-			}
-			if r.Intn(3) == 0 {
-				ks = append(ks, ks[r.Intn(len(ks))])
-			}
-			p.Ops = append(p.Ops, Op{Op: "bget", Keys: ks})
-		case x < 72:
-			if depth < 3 {
-				depth++
-				p.Ops = append(p.Ops, Op{Op: "staging"})
-			}
-		case x < 77:
-			if depth > 0 {
-				depth--
-				p.Ops = append(p.Ops, Op{Op: "release", H: -1})
-			}
-		case x < 82:
-			if depth > 0 {
-				depth--
-				p.Ops = append(p.Ops, Op{Op: "cleanup", H: -1})
-			}
-		case x < 90:
-			if depth == 0 || r.Intn(6) == 0 {
-				p.Ops = append(p.Ops, Op{Op: "flush"})
-			}
-		case x < 95:
-			p.Ops = append(p.Ops, Op{Op: "fdone"})
-		default:
-			p.Ops = append(p.Ops, Op{Op: "fwait"})
-		}
-	}
-	return p
-}
 
 // ---------------------------------------------------------------- main
 func transcript(p *Program) string {
